@@ -59,7 +59,7 @@ fn tiny_case(rng: &mut Rng, pkg: Pkg, comp: Comp) -> ContCase {
         defer: 0,
         free: 0x5eed_f7ee_da7a,
     };
-    ContCase { content, dir, pkg, extra: vec![], id_gap: 0 }
+    ContCase { content, dir, pkg, extra: vec![], id_gap: 0, first_id: 1 }
 }
 
 fn medium_case(rng: &mut Rng) -> ContCase {
@@ -87,7 +87,7 @@ fn medium_case(rng: &mut Rng) -> ContCase {
         unique_keys: false,
     };
     let dir = DirCase { seed: rng.next(), vstores: vec![false, true], stores: vec![files], indexes: vec![IndexDef { name: "files".into(), store: 0, offset: 0, count: n as u32 }], defer: 0, free: 0 };
-    ContCase { content, dir, pkg: Pkg::OneFile, extra: vec![], id_gap: 0 }
+    ContCase { content, dir, pkg: Pkg::OneFile, extra: vec![], id_gap: 0, first_id: 1 }
 }
 
 static SPECIMENS: OnceLock<Vec<Specimen>> = OnceLock::new();
@@ -103,6 +103,8 @@ pub fn specimen_cases(seed: u64) -> Vec<(String, ContCase, bool)> {
         ("medium-zstd".into(), medium_case(&mut rng), false),
         // three content packs all recorded with the empty location, joined with the other packs by tools::concat
         ("loose-concat".into(), loose_case(&mut rng), true),
+        // the same, the content packs numbered from 0 (a content pack may carry the id 0: the directory pack is not in that list)
+        ("loose-zero-id".into(), { let mut c = loose_case(&mut rng); c.first_id = 0; c }, true),
         // separate files, the first extra content pack is unavailable (file removed): the present ones must still be checked
         ("twofiles-missing-extra".into(), missing_case(&mut rng), true),
     ]
@@ -128,7 +130,7 @@ fn loose_case(rng: &mut Rng) -> ContCase {
 
 pub fn build_specimen(name: &str, case: &ContCase, small: bool, dir: &Path) -> Result<Specimen, String> {
     std::fs::create_dir_all(dir).map_err(|e| e.to_string())?;
-    let created = if name == "loose-concat" {
+    let created = if name == "loose-concat" || name == "loose-zero-id" {
         create_loose(case, dir, &|_, _| String::new(), Some("c.jbk"))?
     } else if name == "loose-dup-concat" {
         create_loose(case, dir, &|_, _| String::new(), Some("dup:c.jbk"))?
